@@ -8,7 +8,7 @@ from common import *
 STRINGS = [b'"a"', b'"b c"', b'"x@y.z"', b'"\\"q\\""', b'"back\\\\slash"', b'"[br,ack]"', b'"\xc3\xa9t\xc3\xa9"', b'""', b'"INBOX"',
            b'"multi\nline"', b'"#nocomment"', b'"/* no */"', b'"semi;colon"', b'"{brace}"',
            b'"end\\\\"', b'"\\\\\\"x"', b'"]"', b'","', b'"[\\"a\\",\\"b\\"]"', b'"\xe2\x82\xac\xf0\x9f\x98\x80"', b'" lead and trail "', b'"\r\n"', b'"text:\n.\n"', b'"100%"', b'"%s%d%(k)s"']
-NUMBERS = [b"0", b"10", b"1K", b"2M", b"3g", b"100000"]
+NUMBERS = [b"0", b"10", b"1K", b"2M", b"3g", b"100000", b"0K", b"00", b"007", b"010k", b"00G", b"1000000000000"]
 MULTI = [b"text:\nhello\n.\n", b"text:\r\nhi $x\r\n.\r\n", b"text:\n.x\n.\n", b"text:\n20% off %s\n.\n", b"text:\rhello\r.\n", b"text:\nline one\r.\r\n", b"text: # c\r\nx\r\n.\r\n"]
 
 
@@ -238,6 +238,18 @@ def single_edits(tokens, vocab, r, limit=None):
         for v in (vocab if limit is None else r.sample(vocab, min(limit, len(vocab)))):
             if v != tokens[i]:
                 out.append(("rep", i, tokens[:i] + [v] + tokens[i + 1:]))
+    # the capabilities of a `require` squeezed into ONE string (comma-, blank- or semicolon-separated, padded, prefixed): a
+    # capability string is a name, not a list — none of the names in it is thereby required
+    for i in range(n):
+        if tokens[i].lower() == b"require" and b";" in tokens[i:]:
+            end = i + tokens[i:].index(b";")
+            names = [t[1:-1] for t in tokens[i + 1:end] if t[:1] == b'"' and len(t) >= 2]
+            if names and all(b'"' not in x and b"\\" not in x for x in names):
+                forms = [b",".join(names), b", ".join(names), b" ".join(names), b"x," + b",".join(names), b",".join(names) + b",", b" " + names[0], names[0] + b" "]
+                if len(names) == 1:
+                    forms = forms[3:]
+                for f in forms:
+                    out.append(("reqjoin", i, tokens[:i + 1] + [b'"' + f + b'"'] + tokens[end:]))
     return out
 
 
